@@ -20,6 +20,8 @@ parenthesises exactly where the *documented* table and left associativity requir
 * `C31_code_extends_reference` — on every token list (arbitrary left context, no parenthesisation
   assumed) the code yields the reference parser's tree whenever the reference yields one;
   `C31_reference_atom_blind` — the reference never looks at atoms when it decides about a `-`.
+* `C31_newlines_at_operand_start`, `C31_newline_ends_expression` — line breaks are skipped exactly at
+  operand starts (before the prefix-operator test) and never before a binary/postfix operator.
 * `C31_fold_breaks_table` — the treatment before the fix of D11 (`FoldMode.always`) contradicts the
   table on `-2 % 3`.
 -/
@@ -253,7 +255,7 @@ theorem paren_main {mode : FoldMode} {e : Expr} (ih : MainE mode e) {bp : Nat} {
     · intro hc; subst hc; simp [startTok] at ht
   have : paren e.print ++ rest = .lparen :: (e.print ++ .rparen :: rest) := by simp [paren]
   rw [this]
-  exact PB.of_term (by simp [prefixOp?]) (PT.paren (by simp [skipNl]) hl) h
+  exact PB.of_term rfl (by simp [prefixOp?]) (PT.paren (by simp [skipNl]) hl) h
 
 theorem wrap_main {mode : FoldMode} {e : Expr} (ih : MainE mode e) (c : Bool) {bp : Nat} {rest : List Tok} {res : Res Expr}
     (hbp : bp ≤ 10) (hc : c = false → bp < e.level ∧ stops e.level rest = true)
@@ -268,7 +270,7 @@ mutual
 theorem main_expr (mode : FoldMode) (hm : mode ≠ .always) : (t : Expr) → t.WF → MainE mode t
   | .atom a, hwf => by
     intro bp rest res _ _ _ h
-    refine PB.of_term (by simp [Expr.print, prefixOp?]) (PT.atom (by simp [Expr.print, skipNl]) ?_) h
+    refine PB.of_term (by simp [Expr.print, skipNl]) (by simp [Expr.print, prefixOp?]) (PT.atom (by simp [Expr.print, skipNl]) ?_) h
     intro n hn; subst hn; simpa [Expr.WF] using hwf
   | .neg e, hwf => by
     intro bp rest res _ _ hs h
@@ -283,7 +285,7 @@ theorem main_expr (mode : FoldMode) (hm : mode ≠ .always) : (t : Expr) → t.W
         have : ¬ (e.level ≤ docLevelNeg) := of_decide_eq_false hc
         simp only [docLevelNeg] at this
         exact ⟨by omega, stops_mono hs (by omega)⟩
-      exact PB.of_prefix hp h1 h
+      exact PB.of_prefix rfl hp h1 h
     · -- the literal keeps its sign: `parse_expr_term` builds the same tree
       obtain ⟨t, ts, hpr, _⟩ := (print_starts e).wrapIf (decide (e.level ≤ docLevelNeg))
       rw [hpr, List.cons_append] at hX
@@ -300,7 +302,7 @@ theorem main_expr (mode : FoldMode) (hm : mode ≠ .always) : (t : Expr) → t.W
         have hX' : wrapIf (decide ((Expr.atom a).level ≤ docLevelNeg)) (Expr.atom a).print ++ rest = .atom a :: rest := by
           rw [hpr]; rfl
         rw [hX'] at hp ⊢
-        refine PB.of_term hp (PT.negLit (by simp [skipNl]) hn ?_) h
+        refine PB.of_term rfl hp (PT.negLit (by simp [skipNl]) hn ?_) h
         intro n hn'; subst hn'
         have : n ≤ I64_MAX := by simpa [Expr.WF] using hwe
         omega
@@ -318,7 +320,7 @@ theorem main_expr (mode : FoldMode) (hm : mode ≠ .always) : (t : Expr) → t.W
       simp only [docLevelNot] at this
       exact ⟨by omega, stops_mono hs (by omega)⟩
     rw [Expr.print, List.cons_append]
-    exact PB.of_prefix (op := .not) (by simp [prefixOp?]) h1 h
+    exact PB.of_prefix (op := .not) rfl (by simp [prefixOp?]) h1 h
   | .bin o l r, hwf => by
     intro bp rest res hlv hbp hs h
     have hw : l.WF ∧ r.WF := by simpa [Expr.WF] using hwf
@@ -415,7 +417,7 @@ theorem main_expr (mode : FoldMode) (hm : mode ≠ .always) : (t : Expr) → t.W
     have e1 : (Expr.tuple as).print ++ rest = .lparen :: (as.print ++ .rparen :: rest) := by
       rw [Expr.print]; simp
     rw [e1]
-    exact PB.of_term (by simp [prefixOp?]) (PT.tuple (rest := as.print ++ .rparen :: rest) (by simp [skipNl]) ha hw.2) h
+    exact PB.of_term rfl (by simp [prefixOp?]) (PT.tuple (rest := as.print ++ .rparen :: rest) (by simp [skipNl]) ha hw.2) h
   | .array as, hwf => by
     intro bp rest res _ _ _ h
     have hw : as.WF := by simpa [Expr.WF] using hwf
@@ -423,7 +425,7 @@ theorem main_expr (mode : FoldMode) (hm : mode ≠ .always) : (t : Expr) → t.W
     have e1 : (Expr.array as).print ++ rest = .lbrack :: (as.print ++ .rbrack :: rest) := by
       rw [Expr.print]; simp
     rw [e1]
-    exact PB.of_term (by simp [prefixOp?]) (PT.array (rest := as.print ++ .rbrack :: rest) (by simp [skipNl]) ha) h
+    exact PB.of_term rfl (by simp [prefixOp?]) (PT.array (rest := as.print ++ .rbrack :: rest) (by simp [skipNl]) ha) h
 
 theorem main_args (mode : FoldMode) (hm : mode ≠ .always) : (as : Args) → as.WF → ∀ close rest, (close = .rparen ∨ close = .rbrack) →
     PL mode close (as.print ++ close :: rest) (.ok as rest)
@@ -613,7 +615,8 @@ theorem sim_all : ∀ f,
     refine ⟨?_, ?_, ?_, ?_⟩
     · intro bp toks e r h
       rw [parseBp_succ] at h ⊢
-      rcases prefix_rel toks with heq | ⟨a, rest', rfl, hn, hb, hl, hnv⟩
+      generalize skipNl toks = T at h ⊢
+      rcases prefix_rel T with heq | ⟨a, rest', rfl, hn, hb, hl, hnv⟩
       · rw [heq]
         split at h
         · rename_i op rest hp
@@ -624,7 +627,7 @@ theorem sim_all : ∀ f,
             exact ihL _ _ _ _ _ h
           | err => rw [hsub] at h; cases h
           | fuel => rw [hsub] at h; cases h
-        · cases hsub : parseTerm .never n toks with
+        · cases hsub : parseTerm .never n T with
           | ok lhs r1 =>
             rw [hsub] at h; simp only at h
             rw [ihT _ _ _ hsub]; simp only
@@ -639,8 +642,9 @@ theorem sim_all : ∀ f,
         | zero => simp [parseBp] at h
         | succ m =>
           rw [parseBp_succ] at h
+          have hsk : skipNl (.atom a :: rest') = .atom a :: rest' := rfl
           have hnone : prefixOp? .never (.atom a :: rest') = none := by simp [prefixOp?]
-          rw [hnone] at h
+          rw [hsk, hnone] at h
           simp only at h
           cases m with
           | zero => simp [parseTerm] at h
@@ -846,6 +850,38 @@ theorem C31_reference_atom_blind (σ : Atom → Atom) (toks : List Tok) :
       | nil => rfl
       | cons t2 r2 => cases t2 <;> simp [prefixOp?, foldsHere, Tok.subst]
     | _ => rfl
+
+theorem skipNl_nls (k : Nat) (Z : List Tok) : skipNl (List.replicate k .nl ++ Z) = skipNl Z := by
+  induction k with
+  | zero => rfl
+  | succ k ih => simp [List.replicate_succ, skipNl, ih]
+
+/-- **Continuation lines.** Line breaks in front of an operand are skipped *before* the parser looks
+    for a prefix operator (fix 7fe8312), for every operand position, binding power and mode: an
+    operand that starts with `-`, `not`, a negative literal or a parenthesis on the next line is read
+    exactly as on the same line.  So `3 +⏎ -2 ^ 2` is `3 + -2 ^ 2`. -/
+theorem C31_newlines_at_operand_start (mode : FoldMode) (f bp k : Nat) (toks : List Tok) :
+    parseBp mode f bp (List.replicate k .nl ++ toks) = parseBp mode f bp toks := by
+  cases f with
+  | zero => rfl
+  | succ f => rw [parseBp_succ, parseBp_succ, skipNl_nls]
+
+/-- …and never in front of a binary or postfix operator: at a line break the loop of
+    `parse_expr_bp` returns what it has, so `let p = 1⏎-x` stays two statements. -/
+theorem C31_newline_ends_expression (mode : FoldMode) (f bp : Nat) (lhs : Expr) (rest : List Tok) :
+    loop mode (f + 1) bp lhs (.nl :: rest) = .ok lhs (.nl :: rest) := rfl
+
+/-- the regression for D85, and the statement boundary -/
+theorem C31_continuation_examples :
+    parseExpr [.atom (.int 3), .op .add, .nl, .op .sub, .atom (.int 2), .op .pow, .atom (.int 2)]
+      = parseExpr [.atom (.int 3), .op .add, .op .sub, .atom (.int 2), .op .pow, .atom (.int 2)] ∧
+    parseExpr [.atom (.int 3), .op .add, .nl, .op .sub, .atom (.ident "x")]
+      = .ok (.bin .add (.atom (.int 3)) (.neg (.atom (.ident "x")))) [] ∧
+    parseExpr [.atom (.bool true), .op .and, .nl, .nl, .not, .atom (.ident "b")]
+      = .ok (.bin .and (.atom (.bool true)) (.not (.atom (.ident "b")))) [] ∧
+    parseExpr [.atom (.int 1), .nl, .op .sub, .atom (.ident "x")]
+      = .ok (.atom (.int 1)) [.nl, .op .sub, .atom (.ident "x")] := by
+  refine ⟨?_, ?_, ?_, ?_⟩ <;> rfl
 
 /-- `-2 % 3` and `-x % 3` (and `^`): both are `-(… % …)`, as the table says (unary minus is on the
     additive level, below `%` and `^`); and the smallest integer can still be written. -/
